@@ -195,6 +195,15 @@ fn bool_typed(s: &S) -> bool {
     matches!(s, S::True | S::False | S::Bin(Op::Lt | Op::Le | Op::Eq | Op::Gt | Op::Ge, ..))
 }
 
+// A function literal, possibly in parentheses.
+fn is_function(s: &S) -> bool {
+    match s {
+        S::Lam { .. } => true,
+        S::Paren(a) => is_function(a),
+        _ => false,
+    }
+}
+
 pub fn rewrites(s: &S, goal: &Ty, fresh: usize, light: bool) -> Vec<(&'static str, S)> {
     let mut out: Vec<(&'static str, S)> = vec![];
     let f = |tag: &str| format!("{tag}{fresh}");
@@ -262,26 +271,43 @@ pub fn rewrites(s: &S, goal: &Ty, fresh: usize, light: bool) -> Vec<(&'static st
     }) } {
         out.push(("R5/R6-inner", v));
     }
-    // R7: swap two adjacent function definitions of a group that do not mention each other
-    for v in at_each_position(s, false, &|t, _| {
-        if let S::Let { name: n1, ann: a1, def: d1, body } = t
-            && let S::Let { name: n2, ann: a2, def: d2, body: b2 } = &**body
-            && matches!(**d1, S::Lam { .. })
-            && matches!(**d2, S::Lam { .. })
-            && !mentions(d1, n2)
-            && !mentions(d2, n1)
-            && !a1.as_ref().is_some_and(|a| mentions(a, n2))
-            && !a2.as_ref().is_some_and(|a| mentions(a, n1))
-        {
-            vec![S::Let {
-                name: n2.clone(),
-                ann: a2.clone(),
-                def: d2.clone(),
-                body: bx(S::Let { name: n1.clone(), ann: a1.clone(), def: d1.clone(), body: b2.clone() }),
-            }]
-        } else {
-            vec![]
+    // R7: swap two function definitions of a group (adjacent or not) that do not mention each other.
+    // Only the two functions move; the evaluation order of everything else in the group is unchanged.
+    for v in at_each_position(s, false, &|t, in_let_body| {
+        // a group is visited once, from its first definition
+        if in_let_body || !matches!(t, S::Let { .. }) {
+            return vec![];
         }
+        let mut spine: Vec<(&String, &Option<Rc<S>>, &Rc<S>)> = vec![];
+        let mut cur = t;
+        while let S::Let { name, ann, def, body } = cur {
+            spine.push((name, ann, def));
+            cur = body;
+        }
+        let group_body = cur;
+        let mut out = vec![];
+        for i in 0..spine.len() {
+            for j in i + 1..spine.len() {
+                let ((n1, a1, d1), (n2, a2, d2)) = (spine[i], spine[j]);
+                if is_function(d1)
+                    && is_function(d2)
+                    && !mentions(d1, n2)
+                    && !mentions(d2, n1)
+                    && !a1.as_ref().is_some_and(|a| mentions(a, n2))
+                    && !a2.as_ref().is_some_and(|a| mentions(a, n1))
+                {
+                    let mut order: Vec<usize> = (0..spine.len()).collect();
+                    order.swap(i, j);
+                    let mut acc = group_body.clone();
+                    for k in order.into_iter().rev() {
+                        let (n, a, d) = spine[k];
+                        acc = S::Let { name: n.clone(), ann: a.clone(), def: d.clone(), body: bx(acc) };
+                    }
+                    out.push(acc);
+                }
+            }
+        }
+        out
     }) {
         out.push(("R7-swap-definitions", v));
     }
@@ -317,6 +343,16 @@ pub fn behaviour(text: &str, horizon: usize) -> Behaviour {
     })
 }
 
+fn stuck_by_order_value(text: &str, horizon: usize) -> bool {
+    sem::front_end(text, |f| match f {
+        FrontEnd::Accepted(acc) => {
+            let r = sem::evaluator_graph(acc.elab_real, horizon, |_, _, _| {});
+            matches!(r.end, RunEnd::Stuck) && crate::props::semrun::is_order_value_stuck(&r.last)
+        }
+        _ => false,
+    })
+}
+
 fn search(initial: &S, goal: &Ty, depth: usize, horizon: usize, light: bool) {
     let text0 = surface::print(initial);
     let b0 = behaviour(&text0, horizon);
@@ -345,6 +381,11 @@ fn search(initial: &S, goal: &Ty, depth: usize, horizon: usize, light: bool) {
                 if b == b0 {
                     count!("traces_validated");
                     next.push((t, p));
+                } else if b == Behaviour::Stuck && crate::findings::is_known("F-ORDER-VALUE") && stuck_by_order_value(&text, horizon * 4) {
+                    // The rewritten program is accepted and then needs a function that is defined later
+                    // in its group: the known defect of the definition-order check (C01), seen here as a
+                    // reordering that changes behaviour. Not expanded further.
+                    crate::infra::known("F-ORDER-VALUE", || format!("{text0}   --{}-->   {text}", p.join(", ")));
                 } else {
                     violation(
                         &format!("rewrite-changes-behaviour-{name}"),
@@ -418,6 +459,85 @@ fn family_sweep(tier: Tier) -> Sweep {
     })
 }
 
+// The mixed-group family: groups of 4 annotated definitions d0..d3, each a literal, a function
+// `(p : int) => p + <mentions>` or a computed definition `1 + <mentions>`, mentioning at most
+// `max_mentions` members of the group (functions are mentioned as calls `dj 2`), with any member as the
+// body. Functions that refer to computed definitions placed before or after them, callers placed
+// anywhere: the shapes on which moving a function within its group could matter.
+struct MixedGroups {
+    k: usize,
+    subsets: Vec<Vec<usize>>,
+}
+
+impl MixedGroups {
+    fn new(k: usize, max_mentions: usize) -> MixedGroups {
+        let mut subsets = vec![];
+        for mask in 0..(1usize << k) {
+            if (mask.count_ones() as usize) <= max_mentions {
+                subsets.push((0..k).filter(|j| mask & (1 << j) != 0).collect());
+            }
+        }
+        MixedGroups { k, subsets }
+    }
+    fn per_def(&self) -> u64 {
+        1 + 2 * self.subsets.len() as u64
+    }
+    fn count(&self) -> u64 {
+        self.per_def().pow(self.k as u32) * self.k as u64
+    }
+    fn program(&self, mut idx: u64) -> S {
+        let body = (idx % self.k as u64) as usize;
+        idx /= self.k as u64;
+        // 0 literal, 1 function, 2 computed
+        let mut kinds = vec![];
+        for _ in 0..self.k {
+            let c = idx % self.per_def();
+            idx /= self.per_def();
+            kinds.push(if c == 0 { (0, 0) } else if c <= self.subsets.len() as u64 { (1, c as usize - 1) } else { (2, c as usize - 1 - self.subsets.len()) });
+        }
+        let name = |j: usize| format!("d{j}");
+        let mention = |j: usize| if kinds[j].0 == 1 { S::App(bx(S::Var(name(j))), bx(S::Lit("2".into()))) } else { S::Var(name(j)) };
+        let mut acc = mention(body);
+        for i in (0..self.k).rev() {
+            let (kind, set) = kinds[i];
+            let sum = |first: S| self.subsets[set].iter().fold(first, |e, j| S::Bin(Op::Add, bx(e), bx(mention(*j))));
+            let (ann, def) = match kind {
+                0 => (S::Int, S::Lit("1".into())),
+                1 => (
+                    S::Paren(bx(S::Pi { name: None, implicit: false, dom: bx(S::Int), cod: bx(S::Int) })),
+                    S::Paren(bx(S::Lam { name: format!("p{i}"), implicit: false, ann: Some(bx(S::Int)), body: bx(sum(S::Var(format!("p{i}")))) })),
+                ),
+                // a computed definition is never a syntactic value: `1 + 1` when it mentions nothing
+                _ => (S::Int, if self.subsets[set].is_empty() { S::Bin(Op::Add, bx(S::Lit("1".into())), bx(S::Lit("1".into()))) } else { sum(S::Lit("1".into())) }),
+            };
+            acc = S::Let { name: name(i), ann: Some(bx(ann)), def: bx(def), body: bx(acc) };
+        }
+        acc
+    }
+}
+
+fn mixed_group_sweep(tier: Tier) -> Sweep {
+    let fam = Rc::new(MixedGroups::new(4, tier.pick(1, 2)));
+    let f2 = fam.clone();
+    let horizon = tier.pick(300, 1000);
+    Sweep::new(
+        "rewrite graph to depth 1 from the mixed-group family (functions and computed definitions in one group)",
+        fam.count(),
+        move |idx| {
+            count!("evaluations");
+            count!("mixed_group_programs");
+            search(&fam.program(idx), &Ty::Int, 1, horizon, true);
+        },
+        move |idx| surface::print(&f2.program(idx)),
+    )
+    .with_post_abort(|_, kind| AbortVerdict::Violation {
+        sub: "abnormal-ending".to_owned(),
+        input: String::new(),
+        expected: "the behaviour of the initial program".to_owned(),
+        actual: kind.to_owned(),
+    })
+}
+
 impl Prop for C19 {
     fn id(&self) -> &'static str {
         "C19"
@@ -427,12 +547,13 @@ impl Prop for C19 {
             bfs_sweep("rewrite graph to depth 2 from the smaller programs", tier, 1, tier.pick(4, 5), 2),
             bfs_sweep("rewrite graph to depth 1 from the larger programs", tier, tier.pick(5, 6), tier.pick(6, 7), 1),
             family_sweep(tier),
+            mixed_group_sweep(tier),
         ]
     }
     fn evidence(&self, tier: Tier) -> EvidenceSpec {
         EvidenceSpec {
             level: "model_checking",
-            rule: "states = program texts; initial states = every type-directed program of type int, bool or type up to the size bound, and every member of the nested-group family (recursive functions with helpers defined before or after them, nested groups), that the real front end accepts and the real evaluator takes to a value; transitions = one rewrite at one site: R1 rename any bound variable consistently, R2 parenthesise any subexpression, R3 add an unused definition (a value, a non-value, a type) in front of the program or at the end of its outermost group, R4 name the program with a definition, R5 wrap the program or any subexpression whose head fixes its type in an immediately applied annotated identity function, R6 wrap it in `if true then e else e`, R7 swap adjacent function definitions of a group that do not mention each other. Breadth-first search to depth 2 (smaller programs) / 1 (larger), dedup on the program text. Every reachable program is run through the real front end and evaluator and must show the behaviour of the initial program (same acceptance, same value). non-trivial = initial programs whose whole neighbourhood was explored".to_owned(),
+            rule: "states = program texts; initial states = every type-directed program of type int, bool or type up to the size bound, every member of the nested-group family (recursive functions with helpers defined before or after them, nested groups), and every member of the mixed-group family (groups of 4 annotated definitions, each a literal, a function or a computed definition mentioning at most 1 / 2 members of the group, any member as the body), that the real front end accepts and the real evaluator takes to a value; transitions = one rewrite at one site: R1 rename any bound variable consistently, R2 parenthesise any subexpression, R3 add an unused definition (a value, a non-value, a type) in front of the program or at the end of its outermost group, R4 name the program with a definition, R5 wrap the program or any subexpression whose head fixes its type in an immediately applied annotated identity function, R6 wrap it in `if true then e else e`, R7 swap two function definitions of a group, adjacent or not, that do not mention each other. Breadth-first search to depth 2 (smaller programs) / 1 (larger), dedup on the program text. Every reachable program is run through the real front end and evaluator and must show the behaviour of the initial program (same acceptance, same value). non-trivial = initial programs whose whole neighbourhood was explored".to_owned(),
             assumptions: vec!["no reference model is involved: the comparison is between two runs of the real code".to_owned()],
             evaluations: "evaluations",
             nontrivial: "nontrivial",
@@ -441,7 +562,7 @@ impl Prop for C19 {
             traces: Some("traces_validated"),
             exhaustive: true,
             bounds: json!({"depth2_program_nodes": tier.pick(4, 5), "depth1_program_nodes": tier.pick(6, 7)}),
-            minimums: vec![("initial_programs", 1000), ("states", 100_000), ("family_initial_programs", 300)],
+            minimums: vec![("initial_programs", 1000), ("states", 100_000), ("family_initial_programs", 300), ("mixed_group_programs", 50_000)],
         }
     }
 }
